@@ -88,6 +88,7 @@ func one(h *harness.H, layer string, c int) {
 	rfs, _ := recfs.New(xfs.NewMem())
 	e := cskit.NewExec(rfs, s)
 	e.CheckGC = true
+	e.AutoReads = true // automatic-chunking walks (repaired in repo by the C10 fix commits)
 	h.Eval()
 	if err := e.Setup(); err != nil {
 		h.Inconclusive("setup-error")
